@@ -121,6 +121,12 @@ def circuits_for(key: tuple) -> list:
                     ops.insert(pos, third)
                     out.append(ops)
         return out
+    if kind == 'escape7':
+        # every ordered triple of 3-qudit gates on 7 qudits: the first is
+        # routed and executed (its swaps give the mapped circuit an uneven
+        # depth), the other two stall and are backtracked over
+        t3 = [['g', *t] for t in itertools.combinations(range(7), 3)]
+        return [[a, b, c] for a in t3 for b in t3 for c in t3]
     raise ValueError(key)
 
 
@@ -225,6 +231,27 @@ def fam_escape(quick: bool) -> list:
             for p in pars for lay in ((0, 1) if quick else (0, 1, 2))
         ]
         out += specs('escape', 6, m, edges, ('escape', mode), variants, 60)
+    return out
+
+
+DOUBLE_STAR7 = [[0, 1], [1, 2], [1, 3], [1, 4], [2, 5], [2, 6]]
+
+
+def fam_escape7(quick: bool) -> list:
+    """The local-minimum escape reached *after* other operations have been
+    routed: three 3-qudit gates on a 7-qudit tree.  When the stall is backed
+    out of, the mapped circuit already holds a program gate and its swaps,
+    some of them in the same or a later cycle than the swaps being undone
+    (on 6 qudits, and with 2-qudit prefixes, the swaps being undone are
+    always the topmost operations -- measured; a seeded change that removed
+    'the last operation' instead of 'the last operation on the swap's
+    qudits' went unnoticed there).  Routing only, identity placement."""
+    trees = [DOUBLE_STAR7] if quick else [
+        e for e in M.unlabelled_connected_graphs(7) if len(e) == 6]
+    out = []
+    for edges in trees:
+        out += specs('escape7', 7, 7, edges, ('escape7',),
+                     [['trivial', 0, DEFAULT, None]], 400)
     return out
 
 
@@ -373,7 +400,8 @@ def run(ctx: Ctx) -> None:
     pam = fam_pam(q)
     pam3 = [dict(c, flow='pam') for c in pam if c['flow'] == 'pam3']
     pam = [c for c in pam if c['flow'] == 'pam']
-    spec_fams = [fam_escape(q), fam_small(q), fam_params(q), fam_blocked(q)]
+    spec_fams = [fam_escape(q), fam_small(q), fam_params(q), fam_blocked(q),
+                 fam_escape7(q)]
     if not q:
         spec_fams.append(fam_bigger())
     items: list = []
